@@ -433,7 +433,21 @@ def check_eps_reference(prog, rep):
             if not (isinstance(st, ast.Assign) and len(st.targets) == 1 and isinstance(
                     st.targets[0], ast.Name) and st.targets[0].id == 'eps'):
                 continue
-            subs = [x for x in ast.walk(st.value) if isinstance(x, ast.BinOp) and
+            # the expression of eps with its single-assignment temporaries (`diff = x - y`)
+            exprs, todo, seen_n = [st.value], [st.value], set()
+            while todo:
+                e_ = todo.pop()
+                for nm in names_in(e_):
+                    if nm not in seen_n and len(defs.get(nm, [])) == 1 and not (
+                            isinstance(defs[nm][0], ast.Call) and unparse(defs[nm][0].func) in (
+                                'npc.norm', 'np.linalg.norm', 'norm')) and \
+                            nm not in params(f):
+                        seen_n.add(nm)
+                        if any(isinstance(x, ast.BinOp) and isinstance(x.op, (ast.Sub, ast.Div))
+                               for x in ast.walk(defs[nm][0])):
+                            exprs.append(defs[nm][0])
+                            todo.append(defs[nm][0])
+            subs = [x for e_ in exprs for x in ast.walk(e_) if isinstance(x, ast.BinOp) and
                     isinstance(x.op, ast.Sub)]
             if not subs:
                 continue
@@ -445,14 +459,14 @@ def check_eps_reference(prog, rep):
             minuend = base(subs[0].left)
             if minuend is None:
                 continue
-            divisors = {x.right.id for x in ast.walk(st.value) if isinstance(x, ast.BinOp) and
-                        isinstance(x.op, ast.Div) and isinstance(x.right, ast.Name)}
+            divisors = {x.right.id for e_ in exprs for x in ast.walk(e_) if isinstance(
+                x, ast.BinOp) and isinstance(x.op, ast.Div) and isinstance(x.right, ast.Name)}
             cand = []
             for dv in sorted(divisors):
                 ds = defs.get(dv, [])
                 if len(ds) == 1:
                     cand.append((dv, ds[0]))
-            for x in ast.walk(st.value):   # `.. / npc.norm(theta)` written inline
+            for x in [y for e_ in exprs for y in ast.walk(e_)]:   # `.. / npc.norm(theta)` inline
                 if isinstance(x, ast.BinOp) and isinstance(x.op, ast.Div) and isinstance(
                         x.right, ast.Call):
                     cand.append((unparse(x.right)[:30], x.right))
